@@ -137,29 +137,38 @@ def build_apis(ctx, n_random):
         rq = U.chain_api(depth, rev)
         out.append({"name": f"chain{depth}{'r' if rev else 'f'}", "req": rq, "transport": "grpc", "knobs": {"enclosing_chain", f"chain_depth={depth}"},
                     "e2e": rev or depth == 2 or ctx.tier != "quick", "invalid": rev, "first": [[U.target_package(rq) + ".Library.GetFoo"]]})
-    try:
-        rq, hints = U.subpackage_api(env.rng("C16-sub", 0))
-        out.append({"name": "subpackage", "req": rq, "transport": "grpc", "knobs": {"proto_subpackage"}, "e2e": True, "first": hints})
-    except apigen.Invalid as e:
-        ctx.oblige("the sub-package API is a valid input", False, str(e)[:300], "T1")
-    try:
-        req, knobs = U.dep_package_api(env.rng("C16-dep", 0))
-        out.append({"name": "dep-package", "req": req, "transport": "grpc", "knobs": knobs, "e2e": False})
-    except apigen.Invalid as e:
-        ctx.features["invalid-candidate"] += 1
-        ctx.notes["dep_package_invalid"] = str(e)[:300]
-    for i in range(-1, n_random):
-        # i = -1: the multi-file API with an enums-only, a messages-only and a service-only target file, always present
+    # dedicated APIs built on the shared random generator: the first valid candidate of a fixed rng sequence; a candidate
+    # that is not a valid descriptor set is an invalid candidate (skipped and counted), never a failure of the check
+    def dedicated(name, make, tag):
+        got, errs = U.first_valid(make, tag)
+        ctx.features["invalid-candidate"] += len(errs)
+        if got is None:
+            ctx.features[f"dedicated-api-unavailable:{name}"] += 1
+            ctx.notes[f"{name}_invalid"] = errs[:3]
+        return got
+    got = dedicated("subpackage", U.subpackage_api, "C16-sub")
+    if got:
+        out.append({"name": "subpackage", "req": got[0], "transport": "grpc", "knobs": {"proto_subpackage"}, "e2e": True, "first": got[1]})
+    got = dedicated("dep-package", U.dep_package_api, "C16-dep")
+    if got:
+        out.append({"name": "dep-package", "req": got[0], "transport": "grpc", "knobs": got[1], "e2e": False})
+
+    def multifile(r):
+        api, knobs = U.conventional_plus(r, file_shapes=True)
+        return api, knobs, U.build_request(api)
+    got = dedicated("multifile", multifile, "C16-multifile")
+    if got:
+        out.append({"name": "multifile", "req": got[2], "transport": "grpc", "knobs": got[1], "e2e": True,
+                    "first": [h for h in got[0].info.get("c16_subsets", []) if h and all(h)]})
+    for i in range(n_random):
         r = env.rng("C16-api", i)
         try:
-            api, knobs = U.conventional_plus(r, file_shapes=(i == -1))
-            req = api.request()
-        except apigen.Invalid as e:
+            api, knobs = U.conventional_plus(r)
+            req = U.build_request(api)
+        except apigen.Invalid:
             ctx.features["invalid-candidate"] += 1
-            if i == -1:
-                ctx.oblige("the multi-file API (enums-only / messages-only / service-only target files) is a valid input", False, str(e)[:300], "T1")
             continue
-        out.append({"name": "multifile" if i == -1 else f"conv{i}", "req": req, "transport": "grpc", "knobs": knobs, "e2e": True,
+        out.append({"name": f"conv{i}", "req": req, "transport": "grpc", "knobs": knobs, "e2e": True,
                     "first": [h for h in api.info.get("c16_subsets", []) if h and all(h)]})
     return out
 
